@@ -146,7 +146,7 @@ fn check_set_case(base: &[SolCase], rep: &mut Report) {
     };
     for perm in permutations(base.len()) {
         let sols: Vec<SolCase> = perm.iter().map(|&i| base[i].clone()).collect();
-        let case = CkCase { preds: preds(), sols: sols.clone(), pre: vec![], strict: false, collect_all: true };
+        let case = CkCase { preds: preds(), sols: sols.clone(), pre: vec![], strict: false, short: false, collect_all: true };
         let b = build(&case);
         let addr = format!("{}", essential_hash::content_addr(&b.set));
         let verdict = match catch(|| check_set(&b.set)) {
